@@ -1313,6 +1313,29 @@ Proof.
   - split; [discriminate|]. intros (s' & e' & Heq & _). discriminate.
   - split; [discriminate|]. intros (s' & e' & Heq & _). discriminate.
 Qed.
+(** ... and for a request with a range (start < end, as [sanitize_request] hands it over) the streamed answer is
+    a 206 whose [content-range] names exactly the bytes the future sends, at least one, out of the whole file
+    (d675f8a; before, such a request got 200 and no [content-range]) *)
+Lemma stream_body_content_range_lemma content r s e0 f :
+  stream_body_range r = Some (s, e0) -> s < e0 ->
+  stream_body_future true content r = Some f ->
+  let n := N.of_nat (length (concat (snd f))) in
+  0 < n /\
+  stream_body_head content r
+  = (206, [(B "content-range", B "bytes " ++ dec s ++ B "-" ++ dec (s + n - 1) ++ B "/" ++ dec (N.of_nat (length content)))]) /\
+  concat (snd f) = firstn (N.to_nat n) (skipn (N.to_nat s) content).
+Proof.
+  intros Hrg Hse. unfold stream_body_future, stream_body_head, stream_body_416. rewrite Hrg. cbn [andb].
+  destruct (N.of_nat (length content) <=? s) eqn:Hle; [discriminate|].
+  intros H. injection H as <-. cbn [snd concat]. rewrite app_nil_r.
+  set (flen := N.of_nat (length content)) in *.
+  assert (Hlen : N.of_nat (length (firstn (N.to_nat (N.min (N.min e0 flen) flen - N.min s (N.min (N.min e0 flen) flen)))
+                                         (skipn (N.to_nat s) content))) = N.min e0 flen - s).
+  { rewrite firstn_length, skipn_length. subst flen. lia. }
+  cbv zeta. rewrite Hlen. split; [lia|]. split.
+  - replace (s + (N.min e0 flen - s) - 1) with (N.min e0 flen - 1) by lia. reflexivity.
+  - f_equal. lia.
+Qed.
 Lemma stream_body_range_v0_witness :
   exists content r f, stream_body_future false content r = Some f /\
                       fst f <> Some (N.of_nat (length (concat (snd f)))).
